@@ -22,6 +22,8 @@ EscFile == E("file", 420, <<"d", "..", "..">>, "1")             \* d/../..  (reg
 ReqQuick    == {DirA, DirAB, FileAF, FileABG, FileAH, FileB, FileC, DirRoot, DirD, EscX, EscDeep, EscSelf, FileAbX}
 FileAFs == E("file", 420, <<"a", "f">>, "1")
 ReqSched    == {DirA, DirAB, FileAF, DirD}
+\* the failing destination (tar:writefail): several small entries, a big one, an empty one
+ReqWF       == {FileAF, FileABG, FileB, FileC, FileAH}
 ReqFour     == {DirA, DirAB, FileAF, FileABG, FileC, DirRoot, EscX, FileB}
 ReqThorough == ReqQuick \cup {FileBig, EscFile}     \* FileCs: archive/tar refuses to write a regular entry whose name ends in "/"
 
